@@ -19,6 +19,8 @@
         PREFIX_PATTERN, PROPERTY_MAPPING, _extract_imputation_method        -> g_mv, extract_op (name_strict = true)
      mloda/core/abstract_plugins/feature_group.py
         get_column_base_feature, resolve_multi_column_feature               -> column_base, resolve_multi_column
+        FeatureGroup.match_feature_group_criteria (default matcher of root / data groups, the
+          `base_feature_name in feature_names_supported()` and input-data branches)  -> root_claims
 
    A Python str is a list of characters (`str`), so every statement is about strings of any length.  Characters
    are 8-bit (`ascii`); the tie to Python holds for 7-bit names (\w, `.`, str.strip are modelled for ASCII only).
@@ -555,3 +557,7 @@ Definition resolve_multi_column (name : str) (cols : list str) : list str :=
        | [] => [name]
        | l => l
        end.
+
+(* the default FeatureGroup.match_feature_group_criteria of a root / data group that supports the names `supported`:
+   the test is made on get_column_base_feature(feature_name), i.e. on everything before the FIRST "~" *)
+Definition root_claims (supported : list str) (name : str) : bool := existsb (str_eqb (column_base name)) supported.
